@@ -236,6 +236,7 @@ func runCheck(prop, tier, repo string, overlay map[string][]byte, writeEvidence 
 		if res.Cover != nil {
 			covers = append(covers, res.Cover)
 		}
+		covers = append(covers, res.PathCovers...)
 	}
 	// 3. discharge
 	so := SolveOpts{TimeoutS: 10, Dir: smtDir, KeepFiles: true}
@@ -243,7 +244,7 @@ func runCheck(prop, tier, repo string, overlay map[string][]byte, writeEvidence 
 		so.TimeoutS = 30
 	}
 	Discharge(out.obligs, so)
-	Discharge(covers, SolveOpts{TimeoutS: 2, Dir: smtDir, KeepFiles: false})
+	Discharge(covers, SolveOpts{TimeoutS: 1, Dir: smtDir, KeepFiles: false, Workers: 16})
 	vacuous := 0
 	// a failed obligation is assumed afterwards; when its goal is false on every path (a write the frame
 	// forbids outright) the context behind it is contradictory by construction, not by a tool error
@@ -258,7 +259,25 @@ func runCheck(prop, tier, repo string, overlay map[string][]byte, writeEvidence 
 			}
 		}
 	}
+	// an assumed obligation whose path is dead anyway (unreachable code) kills nothing: only assumptions that
+	// turn a LIVE path into a dead one make what follows vacuous
+	var second []*Oblig
 	for _, c := range covers {
+		if c.Status == "failed" && strings.HasPrefix(c.Name, "cover:assumed:") && c.Reach != nil {
+			second = append(second, &Oblig{Name: c.Name + ":path-alive", Kind: "cover", Func: c.Func, CtxLen: c.CtxLen, Goal: Not(c.Reach), Expect: "sat", ctx: c.ctx, res: c.res})
+		}
+	}
+	Discharge(second, SolveOpts{TimeoutS: 2, Dir: smtDir, KeepFiles: false, Workers: 16})
+	deadAnyway := map[string]bool{}
+	for _, c2 := range second {
+		if c2.Status == "failed" {
+			deadAnyway[strings.TrimSuffix(c2.Name, ":path-alive")] = true
+		}
+	}
+	for _, c := range covers {
+		if deadAnyway[c.Name] {
+			continue
+		}
 		if c.Status == "failed" && !explained[c] { // unsat: the context is contradictory
 			vacuous++
 			out.toolErrs = append(out.toolErrs, "vacuous context: "+c.Name)
